@@ -22,7 +22,8 @@ def mdl_effective(mdl):
 
 
 class Line:
-    def __init__(self, category, nuclide, level=None, mode=None, emin=None, emax=None, seed=1, count=1, activity=None, mdl=False, raw=None, tag='', raw_after=None):
+    def __init__(self, category, nuclide, level=None, mode=None, emin=None, emax=None, seed=1, count=1, activity=None, mdl=False, raw=None, tag='', raw_after=None, order=0):
+        self.order = order  # 0: README order of the options; 1: reversed; 2: rotated by three options (the options are documented as order-free)
         self.category, self.nuclide, self.level, self.mode = category, nuclide, level, mode
         self.emin, self.emax, self.seed, self.count, self.activity, self.mdl = emin, emax, seed, count, activity, mdl
         self.raw = raw  # extra raw argv (malformed lines)
@@ -43,6 +44,10 @@ class Line:
         if self.mdl:
             for k in MDL_SUBSETS[self.mdl]:
                 a += [MDL_FLAG[k], MDL[k] if k == 'label' else (str(MDL[k]) if k == 'rank' else repr(MDL[k]))]
+        if self.order:
+            pairs = [a[i:i + 2] for i in range(0, len(a), 2)]
+            pairs = pairs[::-1] if self.order == 1 else pairs[3:] + pairs[:3]
+            a = [x for p in pairs for x in p]
         if self.raw: a += self.raw
         if basename is not None: a += [basename]
         if self.raw_after: a += self.raw_after
@@ -55,6 +60,7 @@ class Line:
         s += ':s%s:n%s' % (self.seed, self.count)
         if self.activity is not None: s += ':a%g' % self.activity
         if self.mdl: s += ':mdl' + ('' if self.mdl is True else '(' + self.mdl + ')')
+        if self.order: s += ':order%d' % self.order
         if self.tag: s += ':' + self.tag
         return s
 
@@ -95,6 +101,13 @@ def lines(tier):
     for sub in ('particle', 'particle+aperture', 'rank+particle'):
         out.append(Line('background', 'Co60', seed=5, count=3, mdl=sub))
         out.append(Line('dbd', 'Mo100', level=0, mode=1, seed=5, count=3, mdl=sub))
+    # the options in another order (reversed, rotated): the result must not depend on it
+    for order in (1, 2):
+        out += [Line('dbd', 'Mo100', level=2, mode=1, seed=7, count=3, order=order), Line('dbd', 'Mo100', level=1, mode=8, emin=0.5, emax=1.5, seed=7, count=3, activity=2.0, order=order),
+                Line('dbd', 'Cd106', level=0, mode=10, emin=0.25, seed=3, count=2, order=order), Line('background', 'Co60', seed=11, count=3, activity=4.0, mdl=True, order=order),
+                Line('dbd', 'Mo100', level=0, mode=1, seed=5, count=2, mdl='rank+particle', order=order)]
+    # seeds at the ends of the accepted range (0 is a seed like any other)
+    out += [Line('background', 'Co60', seed=0, count=3), Line('dbd', 'Mo100', level=0, mode=4, seed=0, count=2, activity=3.0), Line('background', 'K40', seed=2147483647, count=2)]
     # refused lines
     out += [
         Line('background', 'Xx99', tag='unknown-nuclide'), Line('background', 'Mo100', tag='nuclide-of-other-category'), Line('dbd', 'Co60', level=0, mode=1, tag='nuclide-of-other-category'),
